@@ -112,6 +112,32 @@ def run(fx, R, tier, cells=1e7, coord=1e3, tol=0.5e-3, what='half of the smalles
     for cq in classes:
         check_class(fx, R, cq)
         check_self_pointers(fx, R, cq)
+        check_table_protocol(fx, R, cq)
+
+
+def check_table_protocol(fx, R, cq):
+    """X7: whatever the order of calls, no method reads the centre table of an axis that has not been sized (bounded typestate exploration)"""
+    from .. import lazytab
+    cname = short_fn(cq)
+    dim = int(cq.rstrip('>').split(',')[-1])
+    ctors = [f for f in fx.functions.values() if f.get('ctor') and f.get('cls') == cq and len(f['params']) == 2 and 'Interval<' in f['sig']]
+    fc, ft = fx.one(cq + '::computeCellCenterPosition'), fx.one(cq + '::getCellCentersPositionAlong')
+    if len(ctors) != 1 or fc is None or ft is None:
+        R.undecided('X7', cname + ':table-protocol', 'anchor vanished')
+        return
+    methods = [('getCellCentersPositionAlong(%d)' % a, ft, [a]) for a in range(dim)] + [('computeCellCenterPosition(indexes)', fc, [None])]
+    others = [f for f in fx.functions.values() if f.get('cls') == cq and not f.get('ctor') and f.get('body') is not None and f not in (fc, ft) and not f['name'].startswith('~')
+              and f.get('access', 'public') == 'public' and any(isinstance(y, dict) and y.get('k') == 'Member' and y.get('name') == 'cellCentersPositionAlongAxes_' for y in walk(f['body']))]
+    for f in others:
+        methods.append((f['name'] + '(..)', f, [None] * len(f['params'])))
+    v = lazytab.explore(fx, cq, 'cellCentersPositionAlongAxes_', dim, ctors[0], methods)
+    if v[0] == 'ok':
+        R.holds('X7', cname + ':table-protocol', 'every axis is sized before any access in all call sequences up to length 3 over %d entry points (%d abstract states, %d calls interpreted)' % (len(methods), v[1], v[2]),
+                fx.rel(ctors[0]['loc']), 'E-STATE')
+    elif v[0] == 'violated':
+        R.violated('X7', 'GridIndexMapping:table-protocol', '%s: the centre handed out is not that of the cell (out-of-bounds read of an empty table) [%s]' % (v[1], cname), fx.rel(fc['loc']), 'E-STATE')
+    else:
+        R.undecided('X7', cname + ':table-protocol', v[1])
 
 
 def check_class(fx, R, cq):
